@@ -151,8 +151,11 @@ def cases(tier, seed):
     out.append({"id": "ndarray:elementwise", "kind": "ndelem", "tier": tier})
     out.append({"id": "ndarray:array-valued:guess-and-scalar-sample",
                 "kind": "ndarr", "part": "guess", "tier": tier})
-    out.append({"id": "ndarray:array-valued:sample-size-n",
-                "kind": "ndarr", "part": "sample", "tier": tier})
+    # NOT asserted (lead's decision): sample(size=n) of an array-valued
+    # derived prior such as np.array([1, 2]) + P returns n values instead of
+    # n x 2.  The property speaks of "priors and numbers"; an ndarray operand
+    # is outside the statement, so demanding a shape here would be more
+    # than the property states (recorded in DESIGN.md as an observation).
     out.append({"id": "tree:d1", "kind": "tree1", "tier": tier})
     nd1 = len(_depth1())
     for i in range(nd1):
